@@ -258,9 +258,36 @@ func (c *Ctx) c08Enforcer(pm *pairModel) {
 func (c *Ctx) c08Cap(pm *pairModel) {
 	r, p := c.R, c.P
 	fCap := p.Field("pkg/storage/mem", "Store", "cap")
-	fFirst := p.Field("pkg/storage/mem", "mbox", "first")
+	// the eviction cursor is found by its role: the integer field of mem.mbox that the cap
+	// loop advances by one (today: mbox.first)
+	var fFirst *types.Var
+	if mboxT := p.Named("pkg/storage/mem", "mbox"); mboxT != nil {
+		if st, ok := mboxT.Underlying().(*types.Struct); ok {
+			for i := 0; i < st.NumFields(); i++ {
+				f := st.Field(i)
+				if b, ok := f.Type().Underlying().(*types.Basic); !ok || b.Info()&types.IsInteger == 0 {
+					continue
+				}
+				for _, s := range eng.StoresToField(pkgFuncs(p, "pkg/storage/mem"), f) {
+					if !isIncrementOf(s.Store.Val, f) {
+						continue
+					}
+					// inside a loop guarded by len(messages) REL cap
+					for _, b := range s.Fn.Blocks {
+						rel, ok := eng.EdgeRel(b, 0)
+						if !ok {
+							continue
+						}
+						if lx := eng.LenOf(rel.X); lx != nil && eng.SameField(eng.LoadedField(lx), pm.memMsgs) && b.Succs[0].Dominates(s.Store.Block()) && len(loopHeaders(s.Store.Block())) > 0 {
+							fFirst = f
+						}
+					}
+				}
+			}
+		}
+	}
 	fFileCap := p.Field("pkg/storage/file", "Store", "messageCap")
-	if fCap == nil || fFirst == nil || fFileCap == nil {
+	if fCap == nil || fFileCap == nil {
 		return
 	}
 	// mem
